@@ -14,7 +14,7 @@ Print Assumptions C21_binary_is_version_partial.
 (* SQL dump inside one read transaction (partial: snapshot isolation of a SQLite read transaction is the model's hypothesis) *)
 Theorem C21_dump_is_version_partial : forall tables k0 sched w0 w,
   k w0 = k0 -> snap w0 = None -> out w0 = nil -> tables <> O ->
-  run (dump_step true tables) sched (w0, DBegin) = (w, DDone) ->
+  run (dump_step tables tables) sched (w0, DBegin) = (w, DDone) ->
   point_in_time k0 w tables.
 Proof. exact dump_is_version. Qed.
 Print Assumptions C21_dump_is_version_partial.
@@ -58,7 +58,7 @@ Print Assumptions C21_cut_is_never_200.
 (* the code before the fixes (kept as documentation of what the fixes repair) *)
 Theorem C21_dump_without_transaction_refuted :
   exists sched w0, k w0 = 0%N /\ snap w0 = None /\ out w0 = nil /\
-    let '(w, ph) := run (dump_step false 2) sched (w0, DBegin) in
+    let '(w, ph) := run (dump_step 0 2) sched (w0, DBegin) in
     ph = DDone /\ ~ point_in_time 0 w 2.
 Proof. exact dump_without_transaction_refuted. Qed.
 Print Assumptions C21_dump_without_transaction_refuted.
@@ -76,8 +76,8 @@ Theorem C21_gate_held_during_copy : forall snap_ok chunks sched w0 w j,
 Proof. exact gate_held_during_copy. Qed.
 Print Assumptions C21_gate_held_during_copy.
 
-Theorem C21_dump_never_holds_gate : forall in_tx tables sched w0 w ph,
-  gate w0 = false -> run (dump_step in_tx tables) sched (w0, DBegin) = (w, ph) -> checkpoint_refused w = false.
+Theorem C21_dump_never_holds_gate : forall covered queries sched w0 w ph,
+  gate w0 = false -> run (dump_step covered queries) sched (w0, DBegin) = (w, ph) -> checkpoint_refused w = false.
 Proof. exact dump_never_holds_gate. Qed.
 Print Assumptions C21_dump_never_holds_gate.
 
@@ -104,3 +104,12 @@ Theorem C21_close_error_dropped_refuted :
     (room < total_len copy_writes + total_len close_writes)%N /\ write_all copy_writes room = true.
 Proof. exact close_error_dropped_refuted. Qed.
 Print Assumptions C21_close_error_dropped_refuted.
+
+(* the transaction bracket of the dump must include the last query (indexes, triggers, views): closed one query
+   early, the schema objects come from a later version than the tables *)
+Theorem C21_dump_last_query_outside_transaction_refuted :
+  exists sched w0, k w0 = 0%N /\ snap w0 = None /\ out w0 = nil /\
+    let '(w, ph) := run (dump_step 2 3) sched (w0, DBegin) in
+    ph = DDone /\ out w = (0 :: 0 :: 1 :: nil)%N /\ ~ point_in_time 0 w 3.
+Proof. exact dump_last_query_outside_transaction_refuted. Qed.
+Print Assumptions C21_dump_last_query_outside_transaction_refuted.
